@@ -6,6 +6,12 @@ From CK Require Import Base.
 From CK Require Import Circ.
 From CK Require Import OpsSimple.
 From CK Require Import Scalar.
+From CK Require Import Tensor.
+From CK Require Import Pexpr.
+From CK Require Import Exec.
+From CK Require Import Ops.
+From CK Require Import Struct.
+From CK Require Import Link.
 Close Scope Qc_scope. Close Scope Q_scope. Close Scope Z_scope. Open Scope nat_scope.
 
 (* for any map conj compatible with + and * (a semiring endomorphism), the conjugated circuit evaluates to conj applied entrywise to the original circuit's values *)
@@ -14,7 +20,7 @@ Theorem C07_conjugate :
          (forall a b : R, conj (radd a b) = radd (conj a) (conj b)) ->
          (forall a b : R, conj (rmul a b) = rmul (conj a) (conj b)) ->
          conj rO = rO ->
-         forall (c : circuit R D) (y : asg D),
+         forall (c : Circ.circuit R D) (y : Base.asg D),
          eval R rO radd rmul D (conjugate R D conj c) y = map (map conj) (eval R rO radd rmul D c y).
 Proof. exact conjugate_correct. Qed.
 Print Assumptions C07_conjugate.
@@ -26,7 +32,7 @@ Theorem C07_involutive :
          (forall a b : R, conj (rmul a b) = rmul (conj a) (conj b)) ->
          conj rO = rO ->
          (forall x : R, conj (conj x) = x) ->
-         forall (c : circuit R D) (y : asg D),
+         forall (c : Circ.circuit R D) (y : Base.asg D),
          eval R rO radd rmul D (conjugate R D conj (conjugate R D conj c)) y = eval R rO radd rmul D c y.
 Proof. exact conjugate_involutive. Qed.
 Print Assumptions C07_involutive.
@@ -34,9 +40,9 @@ Print Assumptions C07_involutive.
 (* if all weights and input functions are fixed by conj (real parameters), conjugate(c) computes the same function as c *)
 Theorem C07_real_identity :
   forall (R : Type) (rO : R) (radd rmul : R -> R -> R) (D : Type) (conj : R -> R) (c : list (node R D)),
-         (forall (W : list (vec R)) (ins : list nat), In (NSum R D W ins) c -> map (map conj) W = W) ->
-         (forall i : inp R D, In (NIn R D i) c -> forall y : asg D, map conj (ifun R D i y) = ifun R D i y) ->
-         forall y : asg D, eval R rO radd rmul D (conjugate R D conj c) y = eval R rO radd rmul D c y.
+         (forall (W : list (Base.vec R)) (ins : list nat), In (NSum R D W ins) c -> map (map conj) W = W) ->
+         (forall i : inp R D, In (NIn R D i) c -> forall y : Base.asg D, map conj (ifun R D i y) = ifun R D i y) ->
+         forall y : Base.asg D, eval R rO radd rmul D (conjugate R D conj c) y = eval R rO radd rmul D c y.
 Proof. exact conjugate_real. Qed.
 Print Assumptions C07_real_identity.
 
@@ -57,3 +63,10 @@ Theorem C07_instance_mul :
   forall a b : C, cconj (cmul a b) = cmul (cconj a) (cconj b).
 Proof. exact cconj_mul. Qed.
 Print Assumptions C07_instance_mul.
+
+(* link: on the algebraic fragment the executable conjugate_m result denotes the entrywise conjugate of the executable denotation *)
+Theorem C07_conjugate_executable :
+  forall (c c' : circuit) (y : asg),
+         frag c = true -> conjugate_m c = Ok c' -> den_all c' y = option_map (map (map cconj)) (den_all c y).
+Proof. exact conjugate_link. Qed.
+Print Assumptions C07_conjugate_executable.
